@@ -207,7 +207,7 @@ def decide(pid, tier, seed):
     # ---- native bounded leg (executable contracts on the real code, exhaustive small scope)
     from .witness import run_witness
     wit = []
-    wfeats = [('json',)] if pid == 'C08' else [()] + ([('docs',)] if pid == 'C17' else [])
+    wfeats = [('json',)] if pid in ('C08', 'C14') else [()] + ([('docs',)] if pid == 'C17' else [])
     for wf_ in wfeats:
         w = run_witness(pid, tier, outdir, wf_)
         if w:
